@@ -83,8 +83,7 @@ pub(crate) fn body_write<const N: usize>(kinds: [Kind; N], pages: [u8; N], x: us
             let mut nwrite = 0;
             let mut ncopy = 0;
             let mut slot_ok = false;
-            let mut i = 0;
-            while i < ghost::NEV {
+            anydb_verif_platform::unroll20!(i, {
                 let l = ghost::get();
                 if i < l.n {
                     if l.k[i] == K::Write && l.a[i] == pfs::DATA {
@@ -108,8 +107,7 @@ pub(crate) fn body_write<const N: usize>(kinds: [Kind; N], pages: [u8; N], x: us
                         assert!(nwrite == 1);
                     }
                 }
-                i += 1;
-            }
+            });
             assert!(nwrite == 1);
             if relocated {
                 let copy_len = if mode == 2 { write_offset } else { len };
@@ -174,7 +172,7 @@ macro_rules! wshapes {
     ($( $name:ident = [$($k:ident $p:expr),*] @ $x:expr; )*) => {
         $(
             #[kani::proof]
-            #[kani::unwind(21)]
+            #[kani::unwind(6)]
             #[kani::stub(alloc::fmt::format, stubs::format_stub)]
             #[kani::stub(crate::Database::sync_bg_tasks, crate::verif_root::sync_bg_tasks_stub)]
             fn $name() {
